@@ -349,3 +349,28 @@ long narrow_guard_local32_bad(const uint8_t* in, size_t in_size) {
     if (framed > in_size) return -1;
     return (long)in[framed - 1];
 }
+
+/* ---- R25 field fit: packed tag bytes hold every value the guards admit */
+uint8_t* fieldfit_bad(uint8_t* op, size_t offset, size_t len) {
+    if (len > 11 || offset > 2048) {            /* offset == 2048 reaches the 11-bit form */
+        *op++ = (uint8_t)(((len - 1) << 2) | 2);
+        *op++ = (uint8_t)(offset & 0xFF);
+        *op++ = (uint8_t)(offset >> 8);
+    } else {
+        *op++ = (uint8_t)(((offset >> 8) << 5) | ((len - 4) << 2) | 1);
+        *op++ = (uint8_t)(offset & 0xFF);
+    }
+    return op;
+}
+uint8_t* fieldfit_good(uint8_t* op, size_t offset, size_t len) {
+    if (len >= 12 || offset >= 2048) {
+        if (len > 64) return op;
+        *op++ = (uint8_t)(((len - 1) << 2) | 2);
+        *op++ = (uint8_t)(offset & 0xFF);
+        *op++ = (uint8_t)(offset >> 8);
+    } else {
+        *op++ = (uint8_t)(((offset >> 8) << 5) | ((len - 4) << 2) | 1);
+        *op++ = (uint8_t)(offset & 0xFF);
+    }
+    return op;
+}
